@@ -24,6 +24,11 @@ CLAIMS = {
   note="Trusted: call-graph resolution (static calls, module interface dispatch by method sets, function values by signature); the three boundary functions are declared, not verified; wall-clock bounds per tick are out of reach."),
 }
 
+ "C16": dict(tech=SMT + "; the two halves of the for instruction are extracted byte-for-byte from LuaCont.RunInThread on every run (fragments)", ref="DESIGN.md §8 C16",
+  text="Step contracts of the numeric for loop, for all int64/float64 operands: forprep (the else branch of the for opcode, extracted verbatim from LuaCont.RunInThread) returns an error exactly when an operand is not a number or the step is zero, makes the loop an integer loop exactly when start and step are integers (otherwise converts the other to float), leaves the limit as is, and sets the control register to nil exactly when NOT (start <= limit) resp. NOT (limit <= start) in the exact mixed order of C02 (so NaN start/limit give an empty loop); foradv writes start+step, or nil exactly when the exact sum passes the limit or the 64-bit addition overflows - never a wrapped value. astcomp.ProcessForStat is proved to hand the same three private registers (obtained from GetFreeRegister) to both instructions and to give the body a separate register for the loop variable. The composition of the step contracts into whole-loop termination, and the compiler below ProcessForStat, are not machine-checked.",
+  note="Trusted: fragment wrappers (generated; region text identical to the source, returns rewritten mechanically), spec functions (exact order, addOverflows), amd64 float-to-int conversion semantics, ghost predicate fromGetFreeRegister defined by the assumed contract of ir.GetFreeRegister, setReg treated as external with its arguments asserted, string operands excluded by precondition (ToNumberValue's string path goes through strconv)."),
+}
+
 NA = {
  "C13": "observational equivalence of closures after dump/load through reflection-based encoding/binary: no per-function contract within reach of the verifier states or decides it (DESIGN §9)",
  "C18": "finalisers depend on Go's garbage collector, pointer-holding maps iterated in random order and Go finalizers on another goroutine: outside the verifier's model (DESIGN §9)",
